@@ -275,7 +275,7 @@ class CW(sym.Walker):
             self.record = old
         return backs
 
-    def _walk(self, start, st0, open_, backs, stop_head, first=False, ends=None):
+    def _walk(self, start, st0, open_, backs, stop_head, first=False, ends=None, stop_at=None):
         stack = [(start, st0, open_, first)]
         f = self.f
         while stack:
@@ -283,6 +283,9 @@ class CW(sym.Walker):
             self.npaths += 1
             if self.npaths > self.maxpaths:
                 raise AnalysisBroken("path explosion in %s" % f.name)
+            if stop_at is not None and bid == stop_at:
+                backs.append(st)        # first arrival at a block of interest (states on entry to a loop)
+                continue
             if bid == stop_head and not fst:
                 backs.append(st)
                 continue
